@@ -353,6 +353,24 @@ func c14Scenario(c *choice.Ctx, rep *report.R, k c14Kind) {
 			fail("too-many-dials", fmt.Sprintf("%d dials for %d exchanges", got, n))
 		}
 	}
+	// (b') a connection reused from the pool dies under the exchange (FIN, reset, an undecodable frame) while new connections are
+	// healthy: the exchange is retried on another connection and succeeds
+	if dialFault == 0 {
+		for ci, dead := range killed {
+			if !dead || ci >= connsBefore {
+				continue
+			}
+			for _, cl := range calls {
+				mine := false
+				for _, v := range victims[ci] {
+					mine = mine || v == cl.name.String()
+				}
+				if mine && (!cl.done || cl.resp == nil) {
+					fail("reused-connection-failure-not-survived", fmt.Sprintf("exchange %d was on pooled connection %d when it died (%s); new connections are healthy, yet the exchange did not succeed: %s", cl.idx, ci, fname, cl))
+				}
+			}
+		}
+	}
 	// (c) promptness: when the connection carrying an exchange dies, the exchange returns (or is retried and succeeds) in the same instant
 	for ci, dead := range killed {
 		if !dead {
